@@ -271,6 +271,9 @@ def run(tier, seed, replay=None):
                 direct.append("file name=%s act=%s raw=1" % (f, a))
             for _ in range(5 if quick else 90):
                 direct.append("file name=%s act=%s raw=%d edits=%s" % (f, rng.choice(["sort2", "sort2", "sort", "opt", "save"]), 1 if quick or rng.random() < 0.5 else 0, rand_edits(rng)))
+            # a loose block in front of a root that is not block 0 (pruning deletes a block below the root)
+            for a in ("opt", "save"):
+                direct.append("file name=%s act=%s raw=%d edits=%s" % (f, a, 1 if quick else rng.randint(0, 1), rng.choice(["LF", "LF;LN", "LX;LF", "LF;LF"])))
             # explicit shape orders: permutations, duplicates, missing names, wrong counts, nested shapes, non-zero root
             for _ in range(2 if quick else 16):
                 k = rng.randint(1, 4)
